@@ -74,6 +74,24 @@ def check(prog, run):
         pst = [s for s in sites if s[2][1] == (prev,)]
         good = len(pst) == 1 and any(x == param for x in sym.walk(sym.expr_rv(b, pst[0][4]["rv"])))
         run.check(good, "R2", "%s prev-update" % kind, "self.%s = Some(%s)" % (prev, param[2]), "the previous-timestamp state is not updated from the parameter the delta is computed from")
+        # the back-patch happens for every next sample: its store is not conditional on the sample's own (still unset) duration, and a
+        # record enters the queue without a duration of its own (it is only known when the next sample arrives)
+        from .. import guards as _g
+        from . import c04 as _c04
+        _c04.CUR_BODY[:] = [b]
+        gsig = [_c04.signature(d_, t_) for (s_, d_, t_) in _g.guards_of(b, deltas[0][0][0])]
+        _c04.CUR_BODY[:] = []
+        cond = [x for x in gsig if "duration" in x]
+        run.check(not cond, "R2", "%s duration back-patch unconditional" % kind, "stored for every next sample",
+                  "the previous sample's duration is back-patched only under `%s`: samples that already carry a duration keep it, so the timeline is no longer the submitted timestamp differences" % (cond[0] if cond else ""), mir.loc_of(deltas[0][0][4]))
+        pushed = []
+        for blk in b["blocks"]:
+            for st_ in blk["stmts"]:
+                if st_["k"] == "assign" and st_["rv"]["k"] == "aggregate" and st_["rv"].get("agg") == "adt" and "duration" in (st_["rv"].get("fields") or []) and "data" in (st_["rv"].get("fields") or []):
+                    pushed.append(sym.expr(b, dict(zip(st_["rv"]["fields"], st_["rv"]["ops"]))["duration"]))
+        good = bool(pushed) and all(x[0] == "agg" and str(x[1]).endswith("Option::None") for x in pushed)
+        run.check(good, "R2", "%s queued without duration" % kind, "duration: None until the next sample arrives",
+                  "a sample is queued with a duration of its own (%s) instead of the difference to the next submitted timestamp" % [sym.show(x)[:60] for x in pushed])
         # param feeds the monotone field of the queued record
         run.check(bool(mono), "R2", "%s monotone-field" % kind, "writer enforces monotone %s" % sorted(mono), "no monotone timestamp found for the %s queue" % kind)
     # ---- R3 via C01.R5, R4, R5 on the A/V standard leaf and the video-only leaf
